@@ -460,5 +460,56 @@ def payload_set():
     return C
 
 
+BT = "mpf/core/bcp/bcp_transport.py"
+
+
+def order_set():
+    """the receive loop of a BCP connection: commands are dispatched in the order sent - a command is handled to
+    completion (awaited) before the next one is read; no handler is spawned as a task of its own"""
+    C = ContractSet("C19o", "BCP commands are dispatched in the order sent")
+    C.strings = False
+    C.exc("BrokenPipeError", "OSError")
+    C.cls("TransportI", fields={})
+
+    def read_message(I, env, a, k):
+        if I.ctx.fork(2) == 1:
+            I.raise_("BrokenPipeError")
+        emit(I, "read")
+        return VTuple([VStr(z3.String(I.fresh_name("cmd"))), I.new_dict(())])
+    C.ext("TransportI.read_message", model=read_message, trusted_reason="BCPClientSocket.read_message (framing: main set)")
+    C.cls("InterfaceI", fields={})
+    C.ext("InterfaceI.process_bcp_message", model=lambda I, env, a, k: (emit(I, "handled", cmd=a[0]), NONE)[1],
+          trusted_reason="BcpInterface.process_bcp_message (C19d): a coroutine - its effect happens where it is awaited")
+    C.cls("LoopI", fields={})
+
+    def create_task(I, env, a, k):
+        emit(I, "spawned")
+        return I.fresh(ObjS("TaskI"), I.fresh_name("task"))
+    C.cls("TaskI", fields={})
+    C.ext("TaskI.add_done_callback", model=common.noop, trusted_reason="asyncio.Task")
+    C.ext("LoopI.create_task", model=create_task, trusted_reason="asyncio loop.create_task: runs the coroutine LATER, "
+                                                                 "concurrently with its creator")
+    C.globals["Util"] = VCls("Util")
+    C.globals["Util.raise_exceptions"] = VOpaque("Fn", z3.Const("raise_exceptions", usort("Fn")))
+    C.cls("BcpTransportManager", file=BT, fields=dict(
+        _machine=ObjS("MachineController", bcp=ObjS("BcpI", interface=ObjS("InterfaceI")),
+                      clock=ObjS("ClockI", loop=ObjS("LoopI")))))
+    C.ext("BcpTransportManager.unregister_transport", model=lambda I, env, a, k: (emit(I, "unregistered"), NONE)[1],
+          trusted_reason="removes the connection from the manager's tables")
+
+    def pass_in_order(I):
+        tr = [e.name for e in I.cur_trace() if e.name in ("read", "handled", "spawned")]
+        return VBool(tr in (["read", "handled"],))
+    C.helpers["read_then_handled"] = pass_in_order
+    C.trace_helpers = {"read_then_handled"}
+    C.fn("BcpTransportManager._receive_loop", params=dict(transport=ObjS("TransportI")),
+         loops_by_text={"True": LoopSpec(invariant=[], modifies=[], body_ensures=[
+             ("RO1: each pass reads ONE command and handles it to completion before the next one is read - the handler is "
+              "awaited in the loop itself, not spawned as a task that could be overtaken by later commands",
+              "read_then_handled()")])},
+         modifies=[], raises={})
+    return C
+
+
 def build_extra():
-    return [dispatch_set(), payload_set()]
+    return [dispatch_set(), payload_set(), order_set()]
